@@ -254,7 +254,7 @@ Proof.
     split; [exact Hv|]. split; [reflexivity|].
     assert (N : ekey (entry_at t v) <> key).
     { replace v with (getIndex t key + (v - getIndex t key)) by lia.
-      apply (find_key_none _ _ _ _ F). cbv. lia. }
+      apply (find_key_none _ _ _ _ F). unfold bucket. cbn [In]. lia. }
     apply Z.eqb_neq in N. rewrite N. reflexivity.
 Qed.
 
@@ -302,6 +302,21 @@ Proof.
     + apply IH. intros; apply Hin; right; assumption.
 Qed.
 
+Lemma find_key_written : forall t idx key d i0 is,
+  (forall i, In i is -> ekey (entry_at t (i0 + i)) <> key) ->
+  (exists i, In i is /\ idx = i0 + i) ->
+  find_key (with_mem t ((idx, store_words (key, d)) :: mem t)) key i0 is = Some idx.
+Proof.
+  intros t idx key d i0 is. induction is as [|i r IH]; intros N (i' & Hi' & E); [contradiction|].
+  cbn [find_key]. rewrite entry_at_write.
+  destruct (Z.eqb_spec (i0 + i) idx) as [Ei | Ei].
+  - rewrite load_store. unfold ekey, TTEntry_getKey. cbn [fst]. rewrite Z.eqb_refl. f_equal. exact Ei.
+  - assert (Nk : ekey (entry_at t (i0 + i)) <> key) by (apply N; left; reflexivity).
+    apply Z.eqb_neq in Nk. rewrite Nk. apply IH.
+    + intros x Hx. apply N. right. exact Hx.
+    + destruct Hi' as [Hi' | Hi']; [subst i'; lia|]. exists i'. split; assumption.
+Qed.
+
 Theorem insert_refines : forall t key0 m type ply depth0 evalScore busy t',
   WFt t -> tableSize t < 2 ^ 64 -> 0 <= Z.lxor key0 (contemptHash t) < 2 ^ 64 ->
   insert t key0 m type ply depth0 evalScore busy = Ok t' ->
@@ -339,17 +354,9 @@ Proof.
       rewrite F'. subst t'. rewrite entry_at_write, Z.eqb_refl, load_store. cbn [snd]. rewrite Ed. reflexivity.
     + (* no slot held the key: the written slot is the only match *)
       assert (F' : find_key t' key (getIndex t key) bucket = Some idx).
-      { pose proof (find_key_none _ _ _ _ F) as N.
-        unfold in_bucket in Hb. unfold bucket in *.
-        assert (C : idx = getIndex t key + 0 \/ idx = getIndex t key + 1 \/ idx = getIndex t key + 2 \/ idx = getIndex t key + 3) by lia.
-        cbn [find_key]. subst t'. rewrite !entry_at_write. rewrite !load_store.
-        unfold ekey at 1 3 5 7, TTEntry_getKey. cbn [fst]. rewrite Z.eqb_refl.
-        pose proof (N 0 ltac:(cbv; lia)) as N0. pose proof (N 1 ltac:(cbv; lia)) as N1.
-        pose proof (N 2 ltac:(cbv; lia)) as N2. pose proof (N 3 ltac:(cbv; lia)) as N3.
-        apply Z.eqb_neq in N0, N1, N2, N3. rewrite N0, N1, N2, N3.
-        destruct C as [C | [C | [C | C]]]; subst idx;
-          repeat match goal with |- context [?a =? ?b] =>
-                   destruct (Z.eqb_spec a b); try lia end; reflexivity. }
+      { subst t'. apply find_key_written.
+        - apply (find_key_none _ _ _ _ F).
+        - unfold in_bucket in Hb. exists (idx - getIndex t key). split; [unfold bucket; cbn [In]; lia | lia]. }
       rewrite F'. subst t'. rewrite entry_at_write, Z.eqb_refl, load_store. cbn [snd]. rewrite Hd. reflexivity.
   - intros k' Hk' Hne. unfold view. rewrite GI.
     destruct (idx_ok t k' W Hk') as (M' & I0' & I3').
@@ -362,8 +369,7 @@ Proof.
       (* the found slot is the written one: impossible unless it held k' -- then it is the evicted case,
          but here the search result did not change, so the written slot now holds key <> k' *)
       subst j'. exfalso.
-      assert (X : find_key (with_mem t ((idx, store_words (key, d)) :: mem t)) k' (getIndex t k') bucket = Some idx)
-        by (rewrite Same; exact F').
+      pose proof Same as X.
       destruct (find_key_some _ _ _ _ _ X) as (KX & _).
       rewrite entry_at_write, Z.eqb_refl, load_store in KX. unfold ekey, TTEntry_getKey in KX. cbn [fst] in KX. congruence.
     + destruct (find_key_some _ _ _ _ _ Ev) as (Kidx & i' & Hi' & Eidx). apply bucket_range in Hi'.
@@ -377,6 +383,9 @@ Proof.
 Qed.
 
 (** Uniq is an invariant of insert / probe *)
+Lemma ekey_load_store : forall k d, ekey (load_entry (store_words (k, d))) = k.
+Proof. intros. rewrite load_store. reflexivity. Qed.
+
 Lemma uniq_store : forall t idx key d,
   Uniq t ->
   (forall b i, b mod 4 = 0 -> 0 <= i <= 3 -> b + i <> idx ->
@@ -384,12 +393,12 @@ Lemma uniq_store : forall t idx key d,
   Uniq (with_mem t ((idx, store_words (key, d)) :: mem t)).
 Proof.
   intros t idx key d U H b i j Mb Hi Hj Hne E.
-  rewrite !entry_at_write in *.
+  rewrite !entry_at_write in E. rewrite !entry_at_write.
   destruct (Z.eqb_spec (b + i) idx) as [Ei | Ei]; destruct (Z.eqb_spec (b + j) idx) as [Ej | Ej]; try lia.
-  - rewrite load_store in *. unfold ekey at 1, TTEntry_getKey in *. cbn [fst] in *.
+  - rewrite ekey_load_store in *.
     apply (H b j Mb Hj Ej); [exists i; split; assumption | symmetry; exact E].
-  - rewrite load_store in E. unfold ekey at 2, TTEntry_getKey in E. cbn [fst] in E.
-    rewrite E. apply (H b i Mb Hi Ei); [exists j; split; assumption | exact E].
+  - rewrite ekey_load_store in E. rewrite E.
+    apply (H b i Mb Hi Ei); [exists j; split; assumption | exact E].
   - apply (U b i j); assumption.
 Qed.
 
@@ -561,4 +570,48 @@ Proof.
   cbn in E. inversion E; subst t. clear E.
   unfold Inv. cbn. split; [constructor; cbn; (assumption || lia)|].
   split; [lia|]. split; [unfold W64; lia|]. apply uniq_empty. reflexivity.
+Qed.
+
+(** * the refinement statement: after ANY history the next probe / insert acts on the abstract
+    map [view] as the specification says *)
+Theorem bucket_refines_map : forall t0 ops t,
+  Inv t0 -> Forall (fun o => W64 (op_key o)) ops -> run t0 ops = Ok t ->
+  Inv t /\
+  (forall key0 res t' r, W64 key0 -> probe t key0 res = Ok (t', r) ->
+     let key := Z.lxor key0 (contemptHash t) in
+     match view t key with
+     | None => t' = t /\ r = miss res
+     | Some d =>
+         fst r = key /\
+         snd r = (if negb (getGeneration d =? generation t) then TTEntry_setGeneration d (generation t) else d) /\
+         view t' key = Some (snd r) /\
+         (forall k', k' <> key -> view t' k' = view t k')
+     end) /\
+  (forall key0 m type ply depth0 evalScore busy t', W64 key0 ->
+     insert t key0 m type ply depth0 evalScore busy = Ok t' ->
+     let key := Z.lxor key0 (contemptHash t) in
+     let depth := if depth0 <? 0 then 0 else depth0 in
+     t' = t \/
+     exists idx, in_bucket (getIndex t key) idx /\
+       view t' key = Some (match view t key with
+                           | Some old => build_data old (m_from m =? m_to m) m type ply depth evalScore busy (generation t)
+                           | None => build_data (snd (entry_at t idx)) false m type ply depth evalScore busy (generation t)
+                           end) /\
+       (forall k', 0 <= k' < 2 ^ 64 -> k' <> key ->
+          view t' k' = view t k' \/
+          (view t key = None /\ ekey (entry_at t idx) = k' /\ (k' <> 0 -> view t' k' = None)))).
+Proof.
+  intros t0 ops t I0 F E.
+  destruct (history_invariant ops t0 t I0 F E) as (I & _).
+  split; [exact I|]. destruct I as (W & HT & HC & U).
+  split.
+  - intros key0 res t' r Hk P. apply (probe_refines t key0 res t' r W HT); [|exact P].
+    apply lxor_W64; assumption.
+  - intros key0 m type ply depth0 evalScore busy t' Hk Ei.
+    assert (K : 0 <= Z.lxor key0 (contemptHash t) < 2 ^ 64) by (apply lxor_W64; assumption).
+    destruct (insert_refines t key0 m type ply depth0 evalScore busy t' W HT K Ei) as [Eq | (idx & Hb & V & O)];
+      [left; exact Eq | right].
+    exists idx. split; [exact Hb|]. split; [exact V|].
+    intros k' Hk' Hne. destruct (O k' Hk' Hne) as [S | (A & B & C)]; [left; exact S | right].
+    split; [exact A|]. split; [exact B|]. intros Hnz. apply C; assumption.
 Qed.
